@@ -40,3 +40,26 @@ def task_slow_write(args):
     for k in range(n):
         sh[j] += 1.0
     return j
+
+
+__simmp_func_state__ = True  # ask the simulator to treat function attributes / defaults here as per-process
+
+
+def task_scratch(j):
+    """Uses a per-process scratch cell kept as a function attribute: correct
+    in real processes (one task at a time per process), a race only if the
+    attribute were shared between simulated workers."""
+    tag, sh, plain = G
+    buf = task_scratch.__dict__.setdefault("buf", [None])
+    buf[0] = j
+    x = 1
+    y = x + 1
+    sh[j] = buf[0] * 10 + y
+    return j
+
+
+def task_count(j, _seen=[]):
+    """Counts the tasks executed by this process in a mutable default."""
+    _seen.append(j)
+    x = len(_seen)
+    return (j, x)
